@@ -59,7 +59,7 @@ Plan generate(const std::string& prop, int tier, uint64_t batchSeed, uint64_t id
     {
         // 2-4 thread workloads taken from the other generators (cut to a few operations: the library runs
         // unoptimised and instrumented here) + the scheduler configuration
-        static const int mixn[] = {1, 5, 13, 15, 16, 6, 4, 10, 18, 17};
+        static const int mixn[] = {1, 5, 13, 15, 16, 6, 4, 10, 18, 17, 7, 8};
         Rng r(runSeed(batchSeed, prop, idx), "c19");
         Plan p;
         p.prop = prop;
@@ -72,11 +72,11 @@ Plan generate(const std::string& prop, int tier, uint64_t batchSeed, uint64_t id
         cfg.set("mode", r.chance(1, 4) ? 1 : 0).set("points", static_cast<int64_t>(1 + r.below(6)));
         p.items.push_back(cfg);
         const bool sameWorkload = r.chance(1, 2);  // identical workloads on all threads: every access (also on rare paths) has a twin
-        const int shared = mixn[r.below(10)];
+        const int shared = mixn[r.below(12)];
         const uint64_t sharedIdx = r.next() % 1000000;
         for (int t = 0; t < n; ++t)
         {
-            const int pn = sameWorkload ? shared : mixn[r.below(10)];
+            const int pn = sameWorkload ? shared : mixn[r.below(12)];
             char name[8];
             snprintf(name, sizeof name, "C%02d", pn);
             Plan sub = generate(name, 0, batchSeed ^ 0xC19, sameWorkload ? sharedIdx : r.next() % 1000000);
